@@ -182,7 +182,7 @@ def run_AB(rs, ctx, j, processes):
     else:
         pool = [(2, "threading"), (3, "threading"), (4, "threading"), (-1, "threading"), (-2, "threading"), (64, "threading"), (5, "threading")]
         variants = [pool[int(i)] for i in rs.permutation(len(pool))[:2]]
-        m_rows = [1, 2, 3, int(gen.pick(rs, [4, 5, 9, 17, 37, 70]))]
+        m_rows = [1, 2, 3, int(gen.pick(rs, [4, 5, 9, 17, 37, 70, 130, 257]))]
     ops = scenario_ops(rs, cfg, nf, m_rows)
     ref = gen.run_ops(gen.build(cfg), ops)
     for n_jobs, backend in variants:
